@@ -214,6 +214,24 @@ func (n *Net) Pop(l Link) *Frame {
 	return f
 }
 
+// PushFront puts frames that were taken off their links back at the head of those links, in the given order.
+func (n *Net) PushFront(frames []*Frame) {
+	n.mu.Lock()
+	defer n.mu.Unlock()
+	byLink := map[Link][]*Frame{}
+	var order []Link
+	for _, f := range frames {
+		l := Link{f.From, f.To}
+		if _, ok := byLink[l]; !ok {
+			order = append(order, l)
+		}
+		byLink[l] = append(byLink[l], f)
+	}
+	for _, l := range order {
+		n.queues[l] = append(append([]*Frame(nil), byLink[l]...), n.queues[l]...)
+	}
+}
+
 // Peek returns the head of a link without removing it.
 func (n *Net) Peek(l Link) *Frame {
 	n.mu.Lock()
@@ -287,6 +305,26 @@ func (c *Call) Finish(data []byte, err error) {
 }
 func (c *Call) IsDone() bool { c.mu.Lock(); defer c.mu.Unlock(); return c.Done }
 
+// Go launches c on a goroutine of its own without waiting for quiescence (for calls that are started from inside a
+// callback of the code under test, where the driver cannot wait). The channel is closed when the call has returned.
+func (c *Call) Go() <-chan struct{} {
+	c.Started = true
+	returned := make(chan struct{})
+	go func() {
+		defer close(returned)
+		defer func() {
+			if r := recover(); r != nil {
+				c.mu.Lock()
+				c.Panic = fmt.Sprintf("panic: %v\n%s", r, trimStack(debug.Stack()))
+				c.Done = true
+				c.mu.Unlock()
+			}
+		}()
+		c.Start(c)
+	}()
+	return returned
+}
+
 // TraceEntry records one executed action (compact).
 type TraceEntry struct {
 	A   string `json:"a"`
@@ -328,11 +366,13 @@ type Driver struct {
 	// Results
 	HandlerPanic   string // panic inside HandleMessage on the dispatcher goroutine
 	HandlerBlocked string // a HandleMessage call that did not return at quiescence
-	StepLimit      bool
-	Overtakes      int // deliveries of a frame sent before an already delivered frame
-	maxSeq         int
-	runStart       time.Time
-	Ticks          int
+	// TolerateBlocked: a handler that is still blocked at quiescence is expected (the harness parks one on purpose)
+	TolerateBlocked bool
+	StepLimit       bool
+	Overtakes       int // deliveries of a frame sent before an already delivered frame
+	maxSeq          int
+	runStart        time.Time
+	Ticks           int
 }
 
 func (d *Driver) next(total int) int {
@@ -406,7 +446,7 @@ func (d *Driver) DeliverFrame(f *Frame) {
 			d.HandlerPanic = fmt.Sprintf("HandleMessage(from=%d,to=%d,type=%d,len=%d): %s", f.From, f.To, f.MsgType, len(f.Data), p)
 		}
 	default:
-		if d.HandlerBlocked == "" {
+		if d.HandlerBlocked == "" && !d.TolerateBlocked {
 			d.HandlerBlocked = fmt.Sprintf("HandleMessage(from=%d,to=%d,type=%d,len=%d) still blocked at quiescence", f.From, f.To, f.MsgType, len(f.Data))
 		}
 	}
